@@ -11,7 +11,7 @@ import ast
 import re
 
 from sa.cfg import CFG
-from sa.core import AnalysisError, loc, short, unparse, walk_no_nested
+from sa.core import AnalysisError, loc, positions, short, unparse, walk_no_nested
 from sa.fold import Folder
 from sa.guards import derivation, expand_atom, facts
 from sa.regexlang import Lang, Unsupported, included
@@ -201,7 +201,8 @@ def run(ctx):
         t41 = [unparse(v) for t, v, n in tags if t == "41"]
         ctx.instance(R4, f"{b}[11 := new id, 41 := live id]", t11 == ["self.clord_id"] and t41 == ["self.orig_clord_id"],
                      f"{b} writes ClOrdID(11) from {t11} and OrigClOrdID(41) from {t41}", loc(fn))
-        order_ok = all(n.lineno > fn.body[i_new].lineno for t, v, n in tags if t in ("11", "41") and n in list(walk_no_nested(fn))) if i_new >= 0 else False
+        _pos = positions(fn)
+        order_ok = all(_pos[id(n)] > _pos[id(fn.body[i_new])] for t, v, n in tags if t in ("11", "41") and n in list(walk_no_nested(fn))) if i_new >= 0 else False
         ctx.instance(R4, f"{b}[ids written after the pair was advanced]", order_ok, f"{b} writes tag 11/41 before the pair (clord_id, orig_clord_id) was advanced", loc(fn))
         # rule 6
         rets = [n for n in g.nodes if n.kind == "stmt" and isinstance(n.ast, ast.Return)]
@@ -371,7 +372,7 @@ def typestate(ctx, R2, repo, fo):
             ctx.instance(R2, f"{q.split('.')[-1]}[pair idle whenever a request is permitted again]", True, evals=max(1, n_eval))
         # restore precedes clear in the reject handler
         if kind == "ORDERCANCELREJECT":
-            ok = bool(restores) and bool(clears) and all(r.ast.lineno < c.ast.lineno for r, _ in restores for c, _ in clears)
+            ok = bool(restores) and bool(clears) and all(positions(fn)[id(r.ast)] < positions(fn)[id(c.ast)] for r, _ in restores for c, _ in clears)
             ctx.instance(R2, "process_cancel_rej_report[restore before clear]", ok, "clord_id is restored from orig_clord_id after orig_clord_id was cleared", loc(fn))
     ctx.evaluations += n_eval
     # builders require the idle pair
@@ -436,8 +437,12 @@ def report_absorbed(ctx, R7, repo, fo):
     param = fn.args.args[1].arg
     want = {"self.leaves_qty": "151", "self.cum_qty": "14", "self.avg_px": "6", "self.order_id": "37"}
 
-    def tag_source(expr, depth=0):
-        """tags of the report the expression reads (through locals)"""
+    from sa.guards import reaching_defs
+    rdm = reaching_defs(g, exc=False)
+
+    def tag_source(expr, depth=0, at=None):
+        """tags of the report the expression reads (through locals; at a CFG node: through the definitions that reach it, so a
+        local that is reused for two tags in turn is the right one at each use)"""
         out = set()
         for x in ast.walk(expr):
             if isinstance(x, ast.Subscript) and unparse(x.value) == param:
@@ -445,8 +450,14 @@ def report_absorbed(ctx, R7, repo, fo):
             if isinstance(x, ast.Call) and unparse(x.func) == f"{param}.get" and x.args:
                 out.add(fo.tag(x.args[0]))
             if isinstance(x, ast.Name) and depth < 3:
-                for v in derivation(fn, x.id, 0).get(x.id, []):
-                    out |= tag_source(v, depth + 1)
+                if at is not None and x.id in rdm.get(at, {}):
+                    for d in rdm[at][x.id]:
+                        dv_ = getattr(g.nodes[d].ast, "value", None)
+                        if dv_ is not None:
+                            out |= tag_source(dv_, depth + 1, d)
+                else:
+                    for v in derivation(fn, x.id, 0).get(x.id, []):
+                        out |= tag_source(v, depth + 1)
         return out
     rets = [n for n in g.nodes if n.kind == "stmt" and isinstance(n.ast, ast.Return)]
     for attr, tag in want.items():
@@ -465,7 +476,7 @@ def report_absorbed(ctx, R7, repo, fo):
         nodes = [n for n in g.nodes if n.kind == "stmt" and isinstance(n.ast, ast.Assign) and unparse(n.ast.targets[0]) == attr]
         src = set()
         for n in nodes:
-            src |= tag_source(n.ast.value)
+            src |= tag_source(n.ast.value, 0, n.id)
         ok = bool(nodes) and src == {tag} and all(any(tv and re.fullmatch(r"\w+ == FExecType\.REPLACED", a) and tag_source(ast.parse(a.split(" ")[0], mode="eval").body) == {"150"}
                                                          for a, tv in path_facts(g, n.id)) for n in nodes)
         ctx.instance(R7, f"process_execution_report[{attr} := tag {tag} on REPLACED]", ok,
